@@ -976,3 +976,6 @@ package schema
 //@   requires s != nil
 //@ func verifC01Bool(s, data)
 //@   requires s != nil
+
+// The package-level meta-schemas are built by their initialisers.
+//@ axiom metaSchemasExist: schemaSchema != nil && scopeScopeSchema != nil && stepOutputSchema != nil
